@@ -5,6 +5,7 @@ import (
 	"go/token"
 	"go/types"
 	"strings"
+	"unicode"
 
 	"golang.org/x/tools/go/ssa"
 )
@@ -291,6 +292,50 @@ func checkSemanticRejections(c *Ctx, p *Prog) {
 				}
 				c.Ob("R14.4", fmt.Sprintf("consistent: alternative with no symbols=%v", empty), ok, fmt.Sprintf("term=%s results=%v %s; required: an alternative left empty without the keyword is an error", out.Term, out.Results, out.Undecided), p.FnPos(cf))
 			}
+			// loop over the symbols of one alternative (the third): the reserved words in the wrong place
+			for _, wd := range []struct {
+				name      string
+				spelling  string
+				idx, nsym int64
+				wantErr   bool
+			}{
+				{"empty as the whole alternative", "empty", 0, 1, false},
+				{"empty in front of other symbols", "empty", 0, 3, true},
+				{"empty after other symbols", "empty", 1, 2, true},
+				{"error as the first symbol", "error", 0, 2, false},
+				{"error after another symbol", "error", 1, 3, true},
+				{"an ordinary symbol", "num", 1, 3, false},
+				{"a string literal spelled empty", "\"empty\"", 1, 3, false},
+			} {
+				reg := &Region{Fn: cf, Start: hs[2], Cuts: cutSet(hs...), PhiInputs: map[string]Val{"rangeindex": VSym{Name: "k"}},
+					PreWorld: &MapWorld{IntFn: func(n string) (int64, bool) { return 2, strings.HasPrefix(n, "len(") }, AtomFn: func(k string) (bool, bool) { return false, true },
+						Strs: map[string]string{"SYMSTR": "zz"}, Ints: map[string]int64{"SYMSTR[0]": 'z'}},
+					Summaries: map[string]Summary{
+						"fmt.Errorf": func(r *Run, cc *ssa.CallCommon, args []Val) (Val, error) {
+							return VIface{Dyn: errorType(), V: VOpq{"MISPLACED"}}, nil
+						},
+						"invoke:String":  func(r *Run, cc *ssa.CallCommon, args []Val) (Val, error) { return VOpq{"SYMSTR"}, nil },
+						"*.String":       func(r *Run, cc *ssa.CallCommon, args []Val) (Val, error) { return VOpq{"SYMSTR"}, nil },
+						"builtin:append": func(r *Run, cc *ssa.CallCommon, args []Val) (Val, error) { return VOpq{"appended"}, nil },
+					},
+					LookupVal: func(r *Run, m, k Val, t types.Type) (Val, Val) { return VOpq{"lookup"}, boolConst(false) },
+				}
+				w := &MapWorld{Ints: map[string]int64{"k": wd.idx - 1, "SYMSTR[0]": int64(wd.spelling[0])}, Strs: map[string]string{"SYMSTR": wd.spelling},
+					IntFn: func(name string) (int64, bool) {
+						if strings.Contains(name, "Body.Symbols") {
+							return wd.nsym, true
+						}
+						return 3, strings.HasPrefix(name, "len(")
+					}}
+				out := InterpretSafe(reg, w)
+				var ok bool
+				if wd.wantErr {
+					ok = out.Term == "return" && len(out.Results) == 1 && out.Results[0] == "error(MISPLACED)"
+				} else {
+					ok = strings.HasPrefix(out.Term, "cut:")
+				}
+				stepOb(c, out, "R14.6", "consistent: "+wd.name, ok, fmt.Sprintf("term=%s results=%v %s; required: spec/gocc2.ebnf allows empty only as a whole alternative and error only as its first symbol; elsewhere the rest of the alternative would be dropped (empty) or a terminal nobody produces would be created", out.Term, out.Results, out.Undecided), p.FnPos(cf))
+			}
 			// loop over used symbols (the fourth)
 			for _, wd := range []struct {
 				name    string
@@ -298,12 +343,19 @@ func checkSemanticRejections(c *Ctx, p *Prog) {
 				sym     string
 				first   int64
 				wantErr bool
-			}{{"undefined production name", false, "Expr", 'E', true}, {"undefined lower-case symbol", false, "tok", 't', false}, {"defined symbol", true, "Expr", 'E', false}, {"keyword empty", false, "empty", 'e', false}, {"keyword error", false, "error", 'e', false}} {
+			}{{"undefined production name", false, "Expr", 'E', true}, {"undefined production name beginning with a non-ASCII capital", false, "Éxpr", 0xc3, true}, {"undefined lower-case symbol", false, "tok", 't', false}, {"defined symbol", true, "Expr", 'E', false}, {"keyword empty", false, "empty", 'e', false}, {"keyword error", false, "error", 'e', false}} {
 				reg := &Region{Fn: cf, Start: hs[4], Cuts: cutSet(hs...), PhiInputs: map[string]Val{"err": VIface{}},
 					PreWorld: &MapWorld{IntFn: func(n string) (int64, bool) { return 0, strings.HasPrefix(n, "len(") }, AtomFn: func(k string) (bool, bool) { return false, strings.HasPrefix(k, "more ") }},
 					Summaries: map[string]Summary{
 						"fmt.Fprintf": func(r *Run, cc *ssa.CallCommon, args []Val) (Val, error) {
 							return VTuple{VSym{Name: "n"}, VConst{}}, nil
+						},
+						"*.DecodeRuneInString": func(r *Run, cc *ssa.CallCommon, args []Val) (Val, error) {
+							return VTuple{VSym{Name: "FIRSTRUNE"}, intConst(1)}, nil
+						},
+						// the scanner classifies a name as a production name with unicode.IsUpper of its first character
+						"*.IsUpper": func(r *Run, cc *ssa.CallCommon, args []Val) (Val, error) {
+							return boolConst(unicode.IsUpper([]rune(wd.sym)[0])), nil
 						},
 					},
 					LookupVal: func(r *Run, m, k Val, t types.Type) (Val, Val) {
@@ -412,8 +464,113 @@ func runC14(c *Ctx) {
 	checkMainRejects(c, p)
 	checkSemanticRejections(c, p)
 	checkLRDriver(c, p, "R14.3d", "internal/frontend/parser", "*Parser.Parse", true)
+	checkScanIdentifier(c, p, "R14.7")
 	c.Assumptions = append(c.Assumptions, "that the front-end tables reject every token-level mutation is C15's language equality plus R14.1",
 		"NOT decided: the hand-written scanner's classification of every byte sequence (only that the errors it counts are consumed)")
 	c.Trusted = append(c.Trusted, "go/ssa", "checker/sx.go", "post-dominator based control dependence")
 	c.Explanation = "C14, partial: decided is that no detected problem is swallowed. R14.1: the front end's error recovery is inert (the error token is shifted only in recovery states, of which the gocc grammar has none), so nothing is skipped to make the rest parse. R14.2: the scanner's error count is read in main after Parse on a branch to a non-zero exit that dominates every generator call. R14.3: the error of the front-end Parse leads to a non-zero exit before any generator; the driver returns a non-nil error when an AST constructor does. R14.4: NewGrammar returns consistent()'s verdict; an alternative without symbols, an undefined production name, a duplicate token / ignored token / regular definition and an unknown production id are errors or panics. R14.5: a call that inspects every regular-definition reference against the definitions guards generation. NOT decided: that the token-level language is exactly the documented one (C15)."
+}
+
+// R14.7: identifiers (user guide: _id_char is a letter, a digit or '_'; an ignored token id is '!' followed by a
+// token id). '!' is not an identifier character: it may only come first, and a letter must follow.
+func checkScanIdentifier(c *Ctx, p *Prog, rule string) {
+	fn := p.Func("internal/frontend/scanner", "*Scanner.scanIdentifier")
+	if fn == nil {
+		c.Undecided(rule, "scanner scanIdentifier", "function not found")
+		return
+	}
+	hs := loopHeaders(fn)
+	if len(hs) != 1 {
+		c.Undecided(rule, "scanner scanIdentifier", "expected one loop", p.FnPos(fn))
+		return
+	}
+	recv := fn.Params[0].Name()
+	mk := func(chs []int64) (*Region, *MapWorld) {
+		n := 0
+		ints := map[string]int64{}
+		for i, v := range chs {
+			ints[fmt.Sprintf("CH%d", i)] = v
+		}
+		letter := func(v int64) bool { return v == '_' || (v >= 'a' && v <= 'z') || (v >= 'A' && v <= 'Z') }
+		cur := func() int64 {
+			if n < len(chs) {
+				return chs[n]
+			}
+			return -1
+		}
+		reg := &Region{Fn: fn, Cuts: cutSet(hs[0]), Summaries: map[string]Summary{
+			"*.next": func(r *Run, cc *ssa.CallCommon, args []Val) (Val, error) {
+				n++
+				r.Event("consume")
+				r.SetCell(recv, ".ch", intConst(cur()))
+				return VTuple{}, nil
+			},
+			"*.error":    func(r *Run, cc *ssa.CallCommon, args []Val) (Val, error) { r.Event("error"); return VTuple{}, nil },
+			"*.isLetter": func(r *Run, cc *ssa.CallCommon, args []Val) (Val, error) { return boolConst(letter(cur())), nil },
+			"*.isDigit": func(r *Run, cc *ssa.CallCommon, args []Val) (Val, error) {
+				v := cur()
+				return boolConst(v >= '0' && v <= '9'), nil
+			},
+		}, Lazy: func(o *Obj, path string, t types.Type) Val {
+			if o.Name == recv && path == ".ch" {
+				return intConst(cur())
+			}
+			return nil
+		}}
+		return reg, &MapWorld{Ints: ints}
+	}
+	// entry up to the loop
+	for _, wd := range []struct {
+		name string
+		chs  []int64
+		want string
+	}{
+		{"a letter first", []int64{'a', 'b'}, ""},
+		{"'!' followed by a letter", []int64{'!', 'w'}, "consume"},
+		{"'!' followed by something else", []int64{'!', ' '}, "consume; error"},
+		{"'!' followed by '!'", []int64{'!', '!'}, "consume; error"},
+	} {
+		reg, w := mk(wd.chs)
+		out := InterpretSafe(reg, w)
+		got := evs(out, "consume", "error")
+		stepOb(c, out, rule, "scanIdentifier start: "+wd.name, termOf(out) == "cut" && got == wd.want, fmt.Sprintf("%s events=[%s] %s; required [%s] — an ignored token id is '!' followed by a token id", termOf(out), got, out.Undecided, wd.want), p.FnPos(fn))
+	}
+	// one round of the loop
+	for _, wd := range []struct {
+		name string
+		ch   int64
+		stay bool
+	}{{"a letter", 'x', true}, {"a digit", '7', true}, {"an underscore", '_', true}, {"'!'", '!', false}, {"a space", ' ', false}, {"end of input", -1, false}} {
+		reg, w := mk([]int64{'a', wd.ch, 'z'})
+		reg.Start = hs[0]
+		reg.PreWorld = &MapWorld{}
+		cnt := 0
+		inner := reg.Summaries["*.next"]
+		reg.Summaries["*.next"] = func(r *Run, cc *ssa.CallCommon, args []Val) (Val, error) { cnt++; return inner(r, cc, args) }
+		reg.AtStart = func(r *Run, fr *frame) { cnt = 0 }
+		// bring the scanner to the second character before the round starts: the prologue sees 'a' and does not consume
+		reg.AtStart = func(r *Run, fr *frame) { cnt = 0; r.SetCell(recv, ".ch", intConst(wd.ch)) }
+		reg.Summaries["*.isLetter"] = func(r *Run, cc *ssa.CallCommon, args []Val) (Val, error) {
+			v, _ := constInt64(args[0])
+			return boolConst(v == '_' || (v >= 'a' && v <= 'z') || (v >= 'A' && v <= 'Z')), nil
+		}
+		reg.Summaries["*.isDigit"] = func(r *Run, cc *ssa.CallCommon, args []Val) (Val, error) {
+			v, _ := constInt64(args[0])
+			return boolConst(v >= '0' && v <= '9'), nil
+		}
+		reg.Summaries["*.Type"] = func(r *Run, cc *ssa.CallCommon, args []Val) (Val, error) { return VSym{Name: "TOKTYPE"}, nil }
+		cuts := cutSet(hs[0])
+		loop := naturalLoop(hs[0])
+		for b := range loop {
+			for _, s := range b.Succs {
+				if !loop[s] {
+					cuts[s] = true
+				}
+			}
+		}
+		reg.Cuts = cuts
+		out := InterpretSafe(reg, w)
+		stayed := out.CutBlock == hs[0]
+		stepOb(c, out, rule, "scanIdentifier continues over "+wd.name, strings.HasPrefix(out.Term, "cut:") && stayed == wd.stay && (!stayed || cnt == 1), fmt.Sprintf("%s stays in the identifier=%v consumed=%d %s; required stays=%v", termOf(out), stayed, cnt, out.Undecided, wd.stay), p.FnPos(fn))
+	}
 }
